@@ -35,6 +35,19 @@ showed neither a livelock nor a different verdict).
 
 Workload: count 1-5, windows including non-representable ones, bursts, steady arrivals, arrivals at
 exact multiples of the window after an earlier arrival (expiry instants), grid arrivals.
+
+Phase ``abandon`` ("any pattern of concurrent entries" includes entries that never complete their entry):
+the same arrival patterns, but a seeded subset of the entrants gives up - ``Task.cancel()`` from outside,
+``asyncio.wait_for`` around the whole ``async with``, or a teardown that cancels every waiter at one
+instant - after 0 / a fraction / a multiple of the window or exactly at an expiry instant; some retry at
+once or after a back-off (a new entry); some bodies hold the limiter for a while, raise, or are cancelled
+*after* admission.  Events: additionally ``gone(i, c)`` when CancelledError surfaces in entry ``i``.
+Oracle over *real* admissions only (an entry whose ``gone`` precedes its ``admit`` was never admitted and
+occupies nothing; one that was admitted counts for a whole window whatever happens to its body):
+the rate rule as above; work conservation for every entry that waited - also for those queued behind
+an abandoned waiter or arriving after it - and for the abandoned waiter itself over [r, c).
+The counters of this phase carry the prefix ``ab_`` so that the floors of the main phase keep measuring
+the main phase alone.
 """
 import asyncio
 import bisect
@@ -49,7 +62,11 @@ RULE = (
     'fractional in [1.6e9,1.9e9], 2-24 entries; per case one of burst / steady (spacing 0.5,1,1.5 x window/count) / aligned (earlier '
     'arrival + k x window: arrivals at expiry instants) / grid (window/4) / mixed; virtual-time loop with exact timers. '
     'Distinct = (count, window, admission order with waited? flags, multiset of admission instants relative to origin); '
-    'non-trivial = at least one entry had to wait.'
+    'non-trivial = at least one entry had to wait. '
+    'Phase abandon: the same patterns with a seeded 20/40/70% of the entrants giving up (external Task.cancel, asyncio.wait_for around the '
+    'async with, or a common teardown instant) after 0, {0.1,0.25,0.5,0.75,1,1.5,2.5} x window or exactly at another arrival + k x window; '
+    '40% of those retry (new entry) after 0/0.25/1 x window; 15% of the bodies hold for {0.1,0.5,1,2} x window, 10% raise; distinct additionally by '
+    'which entries were abandoned while waiting; non-trivial = somebody waited or gave up while waiting.'
 )
 ASSUMPTIONS = [
     'virtual-time loop (vf/sim/vloop.py) with its timer resolution set to one ulp by this monitor; module-level `time` of rate_limiter redirected to it',
@@ -60,11 +77,28 @@ SHARDS = {'quick': 1, 'thorough': 16}
 TIMEOUT = {'quick': 300, 'thorough': 900}
 
 
+AB_FLOOR = {
+    'cases_with_abandoned_waiter': 420,
+    'waiters_abandoned_while_waiting': 1_100,
+    'waiters_abandoned_by_cancel': 700,
+    'waiters_abandoned_by_timeout': 400,
+    'abandoned_exactly_at_expiry': 160,
+    'abandoned_together_with_another_waiter': 200,
+    'waiting_already_when_another_gave_up': 1_600,
+    'waited_admissions_behind_an_abandoned_waiter': 2_100,
+    'retries_after_abandonment': 540,
+    'admitted_then_cancelled_in_body': 270,
+    'admitted_then_body_raised': 1_100,
+    'rate_pairs_checked': 9_500,
+    'waiting_intervals_checked': 4_900,
+}
+
+
 def FLOORS(tier):
     k = 1 if tier == 'quick' else 60
     return {
-        'evaluations': 2500 * k,
-        'distinct': 1500 * k,
+        'evaluations': 4200 * k,
+        'distinct': 2600 * k,
         'admissions': 25_000 * k,
         'waited_admissions': 10_000 * k,
         'rate_pairs_checked': 15_000 * k,
@@ -72,6 +106,22 @@ def FLOORS(tier):
         'arrivals_exactly_at_expiry': 300 * k,
         'instants_with_two_or_more_waiters_waking': 500 * k,
         'waiting_intervals_checked': 10_000 * k,
+        # phase abandon (entrants that give up while waiting / fail after admission); about half of the minimum over seeds 0..4
+        'ab_cases': 1000 * k,
+        'ab_cases_with_abandoned_waiter': AB_FLOOR['cases_with_abandoned_waiter'] * k,
+        'ab_waiters_abandoned_while_waiting': AB_FLOOR['waiters_abandoned_while_waiting'] * k,
+        'ab_waiters_abandoned_by_cancel': AB_FLOOR['waiters_abandoned_by_cancel'] * k,
+        'ab_waiters_abandoned_by_timeout': AB_FLOOR['waiters_abandoned_by_timeout'] * k,
+        'ab_abandoned_waiting_intervals_checked': AB_FLOOR['waiters_abandoned_while_waiting'] * k,
+        'ab_abandoned_exactly_at_expiry': AB_FLOOR['abandoned_exactly_at_expiry'] * k,
+        'ab_abandoned_together_with_another_waiter': AB_FLOOR['abandoned_together_with_another_waiter'] * k,
+        'ab_waiting_already_when_another_gave_up': AB_FLOOR['waiting_already_when_another_gave_up'] * k,
+        'ab_waited_admissions_behind_an_abandoned_waiter': AB_FLOOR['waited_admissions_behind_an_abandoned_waiter'] * k,
+        'ab_retries_after_abandonment': AB_FLOOR['retries_after_abandonment'] * k,
+        'ab_admitted_then_cancelled_in_body': AB_FLOOR['admitted_then_cancelled_in_body'] * k,
+        'ab_admitted_then_body_raised': AB_FLOOR['admitted_then_body_raised'] * k,
+        'ab_rate_pairs_checked': AB_FLOOR['rate_pairs_checked'] * k,
+        'ab_waiting_intervals_checked': AB_FLOOR['waiting_intervals_checked'] * k,
     }
 
 
@@ -130,8 +180,12 @@ def occupancy(adm_sorted, w, tau):
     return bisect.bisect_right(adm_sorted, tau) - bisect.bisect_right(adm_sorted, tau - w)
 
 
-def check_history(case, req, adm_by_entry, stats, t_end=None):
-    """returns (key, what, detail) or None.  All arithmetic exact (integers in units of 2**-90 s)."""
+def check_history(case, req, adm_by_entry, stats, t_end=None, abandoned=None):
+    """returns (key, what, detail) or None.  All arithmetic exact (integers in units of 2**-90 s).
+
+    ``abandoned``: {entry: instant at which it gave up waiting} for entries that were never admitted; they
+    are judged over [r, c).  Only real admissions (``adm_by_entry``) occupy the window."""
+    abandoned = abandoned or {}
     count = case['count']
     W = to_i(case['window'])
     S = to_i(case['start'])
@@ -160,13 +214,15 @@ def check_history(case, req, adm_by_entry, stats, t_end=None):
             )
     # ---- work conservation ------------------------------------------------------------------
     points = sorted(set(adm) | {t + W for t in adm})
-    pending = [e for e in sorted(req) if e not in adm_by_entry] if t_end is not None else []
-    for e in entries + pending:
-        # an entry that was never admitted is judged over [r, end of observation)
-        r, a = to_i(req[e]), to_i(adm_by_entry[e] if e in adm_by_entry else t_end)
+    pending = [e for e in sorted(req) if e not in adm_by_entry and e not in abandoned] if t_end is not None else []
+    for e in entries + sorted(abandoned) + pending:
+        # an entry that was never admitted is judged over [r, instant it gave up) resp. [r, end of observation)
+        r, a = to_i(req[e]), to_i(adm_by_entry[e] if e in adm_by_entry else abandoned[e] if e in abandoned else t_end)
         if a <= r:
             continue
         stats['waiting_intervals_checked'] += 1
+        if e in abandoned:
+            stats['abandoned_waiting_intervals_checked'] += 1
         bps = [r] + points[bisect.bisect_right(points, r):bisect.bisect_left(points, a)] + [a]
         run_start = None
         for p, q in zip(bps, bps[1:]):
@@ -176,7 +232,7 @@ def check_history(case, req, adm_by_entry, stats, t_end=None):
                 if q - run_start > DELTA_I:
                     return (
                         'work-conservation/late-admission',
-                        f'entry {e} requested at +{rel(r):.9g} was {"admitted at" if e in adm_by_entry else "still not admitted at"} +{rel(a):.9g} although fewer than {count} admissions lay in the '
+                        f'entry {e} requested at +{rel(r):.9g} was {"admitted at" if e in adm_by_entry else "not admitted before it gave up at" if e in abandoned else "still not admitted at"} +{rel(a):.9g} although fewer than {count} admissions lay in the '
                         f'window from +{rel(run_start):.9g} on ({float(Fraction(q - run_start, SCALE)):.6g} s of admissible time unused)',
                         {'entry': e, 'admissible_from': rel(run_start), 'admitted_at': rel(a)},
                     )
@@ -230,6 +286,238 @@ def execute(case, rl_mod, run_virtual, on_quiescent, Deadlock, StepLimit):
     return req, adm, order, outcome, loops[0].time(), stats, spinning
 
 
+# ---- phase abandon: entrants that give up while waiting / fail after admission -----------------------------
+class BodyError(Exception):
+    pass
+
+
+GIVE_UP_FRACTIONS = [0.1, 0.25, 0.5, 0.75, 1.0, 1.5, 2.5]
+
+
+def gen_abandon(rng):
+    """arrival pattern of gen() + a per-entry plan: when and how it gives up, whether it retries, what its body does"""
+    while True:
+        case = gen(rng)
+        if len(case['offsets']) > case['count']:  # somebody may have to wait
+            break
+    window, offsets = case['window'], case['offsets']
+    p_give = rng.choice([0.2, 0.4, 0.7])
+    # a common teardown instant: every chosen entrant still waiting then is cancelled at once
+    teardown = rng.choice(offsets) + rng.choice([0.25, 0.5, 1.0, 1.5, 2.0]) * window if rng.random() < 0.35 else None
+    plans = []
+    for off in offsets:
+        plan = {'give_up': None, 'how': None, 'retry': False, 'backoff': 0.0, 'hold': 0.0, 'fail': False}
+        if rng.random() < p_give:
+            kind = rng.choice(['fraction', 'fraction', 'expiry', 'zero', 'teardown', 'teardown'])
+            if kind == 'teardown' and (teardown is None or teardown < off):
+                kind = 'fraction'
+            if kind == 'fraction':
+                dt = rng.choice(GIVE_UP_FRACTIONS) * window
+            elif kind == 'expiry':  # gives up at the instant at which some admission may leave the window
+                dt = rng.choice(offsets) + rng.randint(1, 3) * window - off
+                if dt < 0:
+                    dt = rng.choice(GIVE_UP_FRACTIONS) * window
+            elif kind == 'zero':
+                dt = 0.0
+            else:
+                dt = teardown - off
+            plan['give_up'] = dt
+            plan['how'] = 'cancel' if kind == 'teardown' else rng.choice(['cancel', 'timeout'])
+            plan['retry'] = rng.random() < 0.4
+            plan['backoff'] = rng.choice([0, 0, 0.25, 1]) * window
+        if rng.random() < 0.15:
+            plan['hold'] = rng.choice([0.1, 0.5, 1.0, 2.0]) * window
+        if rng.random() < 0.1:
+            plan['fail'] = True
+        plans.append(plan)
+    case['plans'] = plans
+    return case
+
+
+def execute_abandon(case, rl_mod, run_virtual, on_quiescent, Deadlock, StepLimit):
+    """as execute(), entries follow their plan.  Returns additionally gone = {entry: (instant, how)} for every entry in
+    which CancelledError surfaced (before or after its admission), raised = {entry: (instant, exception)} for exceptions
+    that came out of the limiter, and body_failed = entries whose body raised."""
+    req = {}
+    adm = {}
+    gone = {}
+    raised = {}
+    body_failed = []
+    order = []
+    loops = []
+    last_jump = [0]
+    n = len(case['offsets'])
+
+    async def main(loop):
+        loop._clock_resolution = math.ulp(loop.time())
+        on_quiescent(loop, lambda: last_jump.__setitem__(0, loop.steps))
+        rl_mod.time = loop.time_module()
+        limiter = rl_mod.RateLimiter(rl_mod.RateLimit(case['count'], case['window']))
+
+        async def attempt(i, plan, how):
+            req[i] = loop.time()
+            try:
+                async with limiter:
+                    adm[i] = loop.time()
+                    order.append(i)
+                    if plan['hold']:
+                        await asyncio.sleep(plan['hold'])
+                    if plan['fail']:
+                        raise BodyError()
+            except asyncio.CancelledError:
+                gone[i] = (loop.time(), how)
+                raise
+            except BodyError:
+                body_failed.append(i)
+            except Exception as exc:  # the body raises BodyError only: this came out of the limiter itself
+                raised[i] = (loop.time(), repr(exc))
+
+        async def entry(i, off, plan):
+            await asyncio.sleep(off)
+            if plan['give_up'] is None:
+                await attempt(i, plan, None)
+                return
+            if plan['how'] == 'timeout':  # the caller's own timeout around the rate-limited operation
+                try:
+                    await asyncio.wait_for(attempt(i, plan, 'timeout'), plan['give_up'])
+                except asyncio.TimeoutError:
+                    pass
+            else:  # somebody else cancels the task that is entering
+                task = asyncio.ensure_future(attempt(i, plan, 'cancel'))
+                done, _ = await asyncio.wait({task}, timeout=plan['give_up'])
+                if not done:
+                    task.cancel()
+                    await asyncio.wait({task})
+            if plan['retry'] and i in gone and i not in adm:
+                if plan['backoff']:
+                    await asyncio.sleep(plan['backoff'])
+                await attempt(n + i, {'hold': 0.0, 'fail': False}, None)
+
+        tasks = [asyncio.ensure_future(entry(i, off, plan)) for i, (off, plan) in enumerate(zip(case['offsets'], case['plans']))]
+        await asyncio.gather(*tasks)
+
+    outcome = 'completed'
+    saved = rl_mod.time
+    try:
+        run_virtual(main, start=case['start'], max_steps=MAX_STEPS, loop_out=loops)
+    except Deadlock:
+        outcome = 'deadlock'
+    except StepLimit:
+        outcome = 'steplimit'
+    finally:
+        rl_mod.time = saved
+    spinning = outcome == 'steplimit' and loops[0].steps - last_jump[0] >= SPIN_STEPS
+    return req, adm, gone, raised, body_failed, order, outcome, loops[0].time(), spinning
+
+
+def run_abandon(ctx, rl_mod, run_virtual, on_quiescent, Deadlock, StepLimit, maxima):
+    N = ctx.pick(2_000, 12_500)
+    for i, rng in ctx.cases(N, phase='abandon'):
+        case = gen_abandon(rng)
+        req, adm, gone, raised, body_failed, order, outcome, t_end, spinning = execute_abandon(case, rl_mod, run_virtual, on_quiescent, Deadlock, StepLimit)
+        start = case['start']
+        W = to_i(case['window'])
+        # never admitted: the cancellation surfaced before any admission was recorded
+        abandoned = {e: c for e, (c, _) in gone.items() if e not in adm}
+        left_waiting = {e: c for e, c in abandoned.items() if c > req[e]}  # gave up after really having waited
+        waited = [e for e in adm if adm[e] > req[e]]
+        ctx.count('ab_cases')
+        ctx.count('ab_outcome_' + outcome)
+        ctx.count('ab_admissions', len(adm))
+        ctx.count('ab_waited_admissions', len(waited))
+        ctx.count('ab_entries_abandoned_before_admission', len(abandoned))
+        ctx.count('ab_waiters_abandoned_while_waiting', len(left_waiting))
+        for e in left_waiting:
+            ctx.count('ab_waiters_abandoned_by_' + gone[e][1])
+        ctx.count('ab_retries_after_abandonment', sum(1 for e in req if e >= len(case['offsets'])))
+        ctx.count('ab_admitted_then_cancelled_in_body', sum(1 for e in gone if e in adm))
+        ctx.count('ab_admitted_then_body_raised', len(body_failed))
+        if left_waiting:
+            ctx.count('ab_cases_with_abandoned_waiter')
+        adm_set = {to_i(t) for t in adm.values()}
+        for e, c in left_waiting.items():
+            if to_i(c) - W in adm_set:
+                ctx.count('ab_abandoned_exactly_at_expiry')
+            if sum(1 for g, cg in left_waiting.items() if cg == c) >= 2:
+                ctx.count('ab_abandoned_together_with_another_waiter')
+        # waiters for whom a leftover of an abandoned waiter would matter: they were (still) waiting when somebody gave
+        # up, or started to wait within two windows of it
+        behind = [e for e in waited if any(c < adm[e] and req[e] < c + 2 * case['window'] for c in left_waiting.values())]
+        ctx.count('ab_waited_admissions_behind_an_abandoned_waiter', len(behind))
+        ctx.count('ab_waiting_already_when_another_gave_up', sum(1 for e in waited if any(req[e] <= c < adm[e] for c in left_waiting.values())))
+        stats = collections.Counter()
+        bad = check_history(case, req, adm, stats, t_end if outcome != 'completed' else None, abandoned=abandoned)
+        for k, v in stats.items():
+            if k.startswith('max_'):
+                maxima[k] = max(maxima[k], v)
+            else:
+                ctx.count('ab_' + k, v)
+        rel = tuple(sorted(round(t - start, 7) for t in adm.values()))
+        ctx.case(
+            sample={
+                'case': case,
+                'admission_order': order,
+                'admitted_at': [round(adm[e] - start, 7) for e in order],
+                'abandoned_at': {e: round(c - start, 7) for e, c in sorted(abandoned.items())},
+            },
+            key=('abandon', case['count'], repr(case['window']), tuple((e, adm[e] > req[e]) for e in order), rel, tuple(sorted(left_waiting))),
+            nontrivial=bool(left_waiting) or bool(waited) or outcome != 'completed',
+        )
+        extra = {
+            'gave_up_rel': {e: [c - start, how] for e, (c, how) in sorted(gone.items())},
+            'never_admitted': sorted(abandoned),
+            'body_raised': body_failed,
+        }
+        if raised and not bad:
+            e = min(raised)
+            extra['limiter_raised'] = {k: [c - start, what] for k, (c, what) in sorted(raised.items())}
+            bad = (
+                'entry/raised-instead-of-admitting',
+                f'entering the limiter raised {raised[e][1]} in entry {e} at +{raised[e][0] - start:.9g} ({"after" if e in adm else "before"} its admission); {len(raised)} entries affected',
+                {'entry': e},
+            )
+        report(ctx, case, req, adm, order, outcome, t_end, spinning, bad, abandoned=abandoned, extra=extra)
+
+
+def report(ctx, case, req, adm, order, outcome, t_end, spinning, bad, abandoned=None, extra=None):
+    """turn the oracle's finding / the run's outcome into a violation (shared by both phases)"""
+    start = case['start']
+    abandoned = abandoned or {}
+    witness = {
+        'case': case,
+        'outcome': outcome,
+        'requests_rel': {e: req[e] - start for e in sorted(req)},
+        'admissions_rel': {e: adm[e] - start for e in sorted(adm)},
+        'admission_order': order,
+    }
+    if extra:
+        witness.update(extra)
+    pending = [e for e in req if e not in adm and e not in abandoned]
+    if bad:
+        key, what, detail = bad
+        witness['detail'] = detail
+        ctx.violation(key, what, witness)
+    elif outcome == 'deadlock':
+        ctx.violation('liveness/deadlock', f'{len(pending)} entries blocked for ever with nothing scheduled', witness)
+    elif outcome == 'steplimit':
+        occ = occupancy(sorted(to_i(t) for t in adm.values()), to_i(case['window']), to_i(t_end))
+        witness['frozen_at_rel'] = t_end - start
+        witness['occupancy_at_frozen_instant'] = occ
+        witness['clock_frozen'] = spinning
+        if spinning and pending and occ < case['count']:
+            ctx.violation(
+                'work-conservation/spins-without-admitting',
+                f'at +{t_end - start:.9g} only {occ} < {case["count"]} admissions lie in the window, entries {pending} keep re-evaluating with a non-positive delay and are never admitted',
+                witness,
+            )
+        else:
+            ctx.count('step_budget_exhausted_undecided')
+            if ctx.counters['step_budget_exhausted_undecided'] > 3:
+                ctx.inconclusive_because(
+                    'step budget exhausted without a decidable history (busy-wait at an instant at which admission is not possible, or a very long run)'
+                )
+
+
 def run(ctx):
     import hailtop.utils.rate_limiter as rl_mod
 
@@ -270,37 +558,8 @@ def run(ctx):
             key=(case['count'], repr(case['window']), tuple((e, adm[e] > req[e]) for e in order), rel),
             nontrivial=bool(waited) or outcome != 'completed',
         )
-        witness = {
-            'case': case,
-            'outcome': outcome,
-            'requests_rel': {e: req[e] - start for e in sorted(req)},
-            'admissions_rel': {e: adm[e] - start for e in sorted(adm)},
-            'admission_order': order,
-        }
-        if bad:
-            key, what, detail = bad
-            witness['detail'] = detail
-            ctx.violation(key, what, witness)
-        elif outcome == 'deadlock':
-            ctx.violation('liveness/deadlock', f'{len(req) - len(adm)} entries blocked for ever with nothing scheduled', witness)
-        elif outcome == 'steplimit':
-            pending = [e for e in req if e not in adm]
-            occ = occupancy(sorted(to_i(t) for t in adm.values()), to_i(case['window']), to_i(t_end))
-            witness['frozen_at_rel'] = t_end - start
-            witness['occupancy_at_frozen_instant'] = occ
-            witness['clock_frozen'] = spinning
-            if spinning and pending and occ < case['count']:
-                ctx.violation(
-                    'work-conservation/spins-without-admitting',
-                    f'at +{t_end - start:.9g} only {occ} < {case["count"]} admissions lie in the window, entries {pending} keep re-evaluating with a non-positive delay and are never admitted',
-                    witness,
-                )
-            else:
-                ctx.count('step_budget_exhausted_undecided')
-                if ctx.counters['step_budget_exhausted_undecided'] > 3:
-                    ctx.inconclusive_because(
-                        'step budget exhausted without a decidable history (busy-wait at an instant at which admission is not possible, or a very long run)'
-                    )
+        report(ctx, case, req, adm, order, outcome, t_end, spinning, bad)
+    run_abandon(ctx, rl_mod, run_virtual, on_quiescent, Deadlock, StepLimit, maxima)
     for k, v in maxima.items():
         ctx.seen(k, v)  # how close correct code comes to the tolerances (per shard maximum)
 
@@ -320,3 +579,15 @@ def run(ctx):
 #   B5 sleep until the *newest* item expires                             -> caught  work-conservation/late-admission
 #   B6 eviction bound loosened by 1 microsecond (`now - window + 1e-6`)  -> caught  rate/window-exceeded (short by 7e-7 s)
 #   B7 `now = time.time()` hoisted out of the loop (stale clock)         -> caught  work-conservation/late-admission, rate/window-exceeded
+#
+# Phase abandon (added after seeded change C24-agent4: admission time reserved in the deque *before* the sleep, a waiter
+# cancelled while sleeping leaves a phantom admission).  Unchanged tree: exit 0 quick seeds 0..4, thorough seeds 0..2.
+# Scratch worktree, quick tier, seed 0, one at a time (all silent in the main phase, caught in phase abandon only):
+#   C24-agent4 reserve-before-sleep, nothing undone on cancel              -> caught  work-conservation/late-admission
+#   A1 on CancelledError in the sleep: rotate the head to the back        -> caught  work-conservation/late-admission
+#   A2 reserve-before-sleep with `items.remove(own)` on cancel            -> caught  rate/window-exceeded, work-conservation/late-admission,
+#      (followers keep their later slots; remove() of an evicted value)               entry/raised-instead-of-admitting
+#   A3 `__aexit__` pops the newest admission when the body failed         -> caught  rate/window-exceeded
+#   A4 on CancelledError in the sleep: `items.clear()`                    -> caught  rate/window-exceeded
+#   A5 a waiter counter that a cancelled waiter never decrements          -> caught  work-conservation/late-admission (already by the main phase:
+#      the break also delays uncancelled waiters)
